@@ -3,7 +3,7 @@
 import re
 
 from vlib import corpus
-from vlib.core import sighash
+from vlib.core import sighash, CaseTimeout
 from vlib.fgenlab import ProgGen
 from vlib.hostilegen import HostileGen, pick_flags
 
@@ -131,6 +131,8 @@ def node_anchors(node):
         elif isinstance(node, ir.Pragma):
             if node.keyword:
                 out.append(str(node.keyword))
+    except CaseTimeout:
+        raise
     except Exception:
         return []
     return [a for a in out if a and a.strip()]
@@ -238,6 +240,8 @@ def run_frontend(text, frontend_name, tag, res, shift=0):
     fe = FP if frontend_name == 'fp' else REGEX
     try:
         sf = Sourcefile.from_source(text, frontend=fe)
+    except CaseTimeout:
+        raise
     except Exception as e:
         return None, f'{type(e).__name__}: {str(e)[:160]}'
     chk = SpanChecker('\n'.join(text.split('\n')[shift:]), frontend_name, tag)
